@@ -210,6 +210,17 @@ def run_job(job, rec):
         ok1 = (not isinstance(o1, Raised)) and np.shape(o1[0]) == (1,) and abs(o1[0][0] - mu[k]) <= tol_mu[k] and abs(o1[1][0] ** 2 - sig[k] ** 2) <= tol_cov
         rec.check(ok1, "single-vs-batched", lambda: f"single-point call gave {o1}, batched gave ({mu[k]}, {sig[k]})", rec.context)
 
+        # ---- integer-typed query points give the same answers as the same values as floats
+        if c % 3 == 0:
+            span_q = np.where(np.ptp(x, axis=0) > 0, np.ptp(x, axis=0), 1.0)
+            qi = np.round(q / span_q * 4).astype(int)
+            if np.all(np.abs(qi) < 10**6):
+                ra, rb = guarded(gp, qi), guarded(gp, qi.astype(float))
+                pa, pb = guarded(gp.build_posterior, qi), guarded(gp.build_posterior, qi.astype(float))
+                rec.count("integer_query_cases")
+                okd = not any(isinstance(v, Raised) for v in (ra, rb, pa, pb)) and all(np.allclose(u, v, rtol=1e-12, atol=1e-300) for u, v in zip(tuple(ra) + tuple(pa), tuple(rb) + tuple(pb)))
+                rec.check(okd, "depends-on-dtype-of-points", lambda: f"{desc}: integer-typed query points give {ra!r}, the same points as floats give {rb!r}", rec.context)
+
         # ---- joint posterior and mean-only
         bp = guarded(gp.build_posterior, qa)
         bm = guarded(gp.build_posterior, qa, mean_only=True)
